@@ -7,6 +7,7 @@ from vlib import *
 import pyed
 
 
+THOROUGH_ROUNDS = 1      # repetitions of the conformance part in the thorough tier (fresh random draws each)
 def gen(rng, quick):
     ops = [{"op": "info"}]
     seeds = [le(0), le(2**256 - 1), le(rng.getrandbits(256)), le(rng.getrandbits(256))]
